@@ -446,7 +446,7 @@ class Ref(object):
         self.rw(kids, chain, lo, inner_hi, sub)
         body_out = ref_body(t['body'], [name, sub])
         # the body's output is rewritten by the templates declared after t, in the place of el
-        self.rw(body_out, anc, t['seq'] + 1, None, out)
+        self.rw(body_out, anc, t['seq'] + 1, hi, out)
 
 
 def ser(nodes):
@@ -539,3 +539,70 @@ def real_simple_events(case):
         else:
             return ['err', 'unexpected-kind']
     return ['ok', out]
+
+
+# --------------------------------------------------------------------------
+# the documented reading: "a match template defined after another match template is applied to
+# the output generated by the first … the match templates basically form a pipeline":
+# stage k rewrites the whole output of stage k-1.  Declarations must all precede the content.
+
+def expand_plain(items):
+    """content items with py:for unrolled and data fragments spliced (no declarations inside)"""
+    out = []
+    for it in items:
+        if isinstance(it, str):
+            out.append(it)
+        elif isinstance(it, dict) and 'for' in it:
+            for _ in range(it['for']):
+                out.extend(expand_plain(it['kids']))
+        elif isinstance(it, dict) and 'frag' in it:
+            out.extend(expand_plain(it['frag']))
+        elif isinstance(it, dict):
+            raise ValueError('declaration inside content')
+        else:
+            out.append([it[0], expand_plain(it[1])])
+    return out
+
+
+def reference_staged(case):
+    """-> (['ok', xml] | ['na', why], fired per template) — pipeline of whole-document stages"""
+    kids = case['kids']
+    n = 0
+    while n < len(kids) and isinstance(kids[n], dict) and 'match' in kids[n]:
+        n += 1
+    tmpls = [dict(t, steps=parse_path(t['match'])) for t in kids[:n]]
+    try:
+        forest = expand_plain(kids[n:])
+    except ValueError as e:
+        return ['na', str(e)], {}
+    fired = {}
+    budget = [20000]
+
+    def stage(k, t, nodes, anc, live):
+        out = []
+        for nd in nodes:
+            budget[0] -= 1
+            if budget[0] < 0:
+                raise RecursionError()
+            if isinstance(nd, str):
+                out.append(nd)
+                continue
+            name, ks = nd
+            chain = anc + [name]
+            if live[0] and pattern_matches(t['steps'], chain):
+                fired[k] = fired.get(k, 0) + 1
+                if t.get('once', False):
+                    live[0] = False
+                if t.get('recursive', True) and not t.get('once', False):
+                    ks = stage(k, t, ks, chain, live)
+                out.extend(ref_body(t['body'], [name, ks]))
+            else:
+                out.append([name, stage(k, t, ks, chain, live)])
+        return out
+
+    try:
+        for k, t in enumerate(tmpls):
+            forest = stage(k, t, forest, [], [True])
+    except RecursionError:
+        return ['na', 'budget'], fired
+    return ['ok', '<root>%s</root>' % ser(forest) if forest else '<root/>'], fired
